@@ -72,8 +72,10 @@ def unpivot(unpivot_fields, extra_keys, extra_value, regex=True, resources=None)
                     config['unpivot_fields_without_regex'].append(field_to_pivot)
 
             config['fields_to_keep'] = [f['name'] for f in fields]
-            fields.extend(extra_keys)
-            fields.append(extra_value)
+            # one descriptor per resource: a shared dict would make a later change to the field
+            # in one resource show up in all of them
+            fields.extend(copy.deepcopy(extra_keys))
+            fields.append(copy.deepcopy(extra_value))
             schema['fields'] = fields
 
         yield package.pkg
